@@ -87,7 +87,6 @@ pub fn dash_path(path: &Path, dash_array: &[f32], mut dash_offset: f32) -> Path 
             PathOp::MoveTo(pt) => {
                 cur_pt = Some(pt);
                 start_point = Some(pt);
-                dashed.move_to(pt.x, pt.y);
 
                 // flush the previous initial segment
                 if initial_segment.len() > 0 {
@@ -96,6 +95,8 @@ pub fn dash_path(path: &Path, dash_array: &[f32], mut dash_offset: f32) -> Path 
                         dashed.line_to(initial_segment[i].x, initial_segment[i].y);
                     }
                 }
+                // only now start the new subpath, so that what follows continues from `pt`
+                dashed.move_to(pt.x, pt.y);
                 is_first_segment = true;
                 initial_segment = Vec::new();
                 first_dash = true;
